@@ -23,6 +23,7 @@ import (
 // NodeState is a detached deep copy of a node's in-memory state.
 type NodeState struct {
 	n *node.Pegnetd
+	g GlobalState // the package-level variables of the pegnetd packages (globals.go)
 }
 
 // IsZero reports whether the state holds nothing (a node that was just started).
@@ -143,7 +144,10 @@ func cloneNode(src *node.Pegnetd) *node.Pegnetd {
 }
 
 // Snapshot returns a detached copy of the node's in-memory state.
-func (d *Daemon) Snapshot() NodeState { return NodeState{n: cloneNode(d.Node)} }
+func (d *Daemon) Snapshot() NodeState {
+	globInit()
+	return NodeState{n: cloneNode(d.Node), g: GlobalsSnapshot()}
+}
 
 // Restore overwrites the node's in-memory state with a copy of s, keeping the node's own handles (database,
 // configuration, client) and its committed sync height.
@@ -151,6 +155,7 @@ func (d *Daemon) Restore(s NodeState) {
 	if s.n == nil {
 		return
 	}
+	GlobalsRestore(s.g)
 	c := cloneNode(s.n)
 	db, conf, cl, sync := d.Node.Pegnet.DB, d.Node.Config, d.Node.FactomClient, d.Node.Sync
 	pconf := d.Node.Pegnet.Config
